@@ -49,9 +49,9 @@ def run_job(prop, job, tier, builder, seed, log):
     ll = builder.link(prop + '_' + name, job['harness'], units, defines, stubs=job.get('stubs', True), iquote=job.get('iquote', False))
     build_s = time.time() - tb
     lim = dict(job.get('limits', {})); lim.update(job.get(tier, {}).get('limits', {}))
-    opts = dict(max_steps=lim.get('max_steps', 20000000), max_depth=lim.get('max_depth', 400), known=known)
+    opts = dict(max_steps=lim.get('max_steps', 20000000), max_depth=lim.get('max_depth', 400), known=known, hooks=tuple(job.get('hooks', ())))
     ex = explore.explore(ll, workers=int(os.environ.get('VERIF_WORKERS', '16')), max_paths=lim.get('max_paths', 300000),
-                         time_limit=lim.get('time', 900), engine_opts=opts, seed=seed)
+                         time_limit=lim.get('time', 900), engine_opts=opts, seed=seed, stop_on_inconclusive=job.get('budget_overrun_is_violation', False))
     res = dict(job=name, defines=defines, units=list(units), build_s=round(build_s, 1), explore=ex, status='ok', messages=[], violations=[], known_hits=[],
                validated=0, native_mismatch=[])
     log('  job %-28s paths=%d pending=%d decisions=%d solver=%d/%.1fs wall=%.1fs ends=%s' % (name, ex['paths'], ex['pending'], ex['decisions'], ex['solver_calls'], ex['solver_time'], ex['wall'], dict(ex['ends'])))
@@ -62,7 +62,7 @@ def run_job(prop, job, tier, builder, seed, log):
     for v in ex['violations']:
         groups.setdefault((v['msg'], v['known']), v)
     hang = job.get('budget_overrun_is_violation', False)
-    need_native = bool(groups) or job.get('validate', True)
+    need_native = bool(groups) or job.get('validate', True) or bool(ex['inconclusive'])
     exe = exe_san = None
     if need_native:
         try:
@@ -102,7 +102,12 @@ def run_job(prop, job, tier, builder, seed, log):
         else: res['violations'].append(entry)
     if not ex['complete'] and res['status'] == 'ok':
         if hang and ex['inconclusive']:
-            res['violations'].append(dict(assertion='budget overrun (hang / unbounded work): ' + ex['inconclusive'][0], known=None, vector=[], notes=[], reproduced=True, native=None))
+            # replay natively under a watchdog: a hang reproduces as a timeout (or as memory exhaustion / abnormal end)
+            vec = (ex.get('inconclusive_vectors') or [[]])[0]
+            n = run_native(exe, vec, timeout=20) if exe and vec else None
+            rep = n is not None and (n['rc'] == -999 or not n['done'])
+            res['violations'].append(dict(assertion='budget overrun (hang / unbounded work): ' + ex['inconclusive'][0], known=None, vector=vec, notes=[], reproduced=bool(rep), native=dict(rc=n['rc'], fails=n['fails'], err=n['err'][-300:]) if n else None))
+            if not rep: res['status'] = 'inconclusive'; res['messages'].append('step budget exhausted but the natively compiled harness finishes on that input: inconclusive, not reported as a hang')
         else:
             res['status'] = 'inconclusive'; res['messages'].append('exploration incomplete: pending=%d inconclusive paths=%d %s' % (ex['pending'], ex['ends'].get('inconclusive', 0), ex['inconclusive'][:1]))
     missing = [l for l in job.get('reach', []) if l not in ex['reached']]
